@@ -487,34 +487,69 @@ def stage_sql(ctx, rng, d, gverif, gmodel):
         viol.append(rep)
     # --- set-operation output types against the extracted unify_cols
     names = d["type_ids"]
-    tyre = re.compile(r"^([A-Za-z0-9]+)(?:\((.*)\))?$")
 
-    def enc(tn):
-        m = tyre.match(tn)
+    def enc_parts(tn):
+        """engine type name -> (id index, [metadata integers]) : the model's dtype (id + metadata code)"""
+        m = re.match(r"^List\[(.*)\]$", tn)
+        if m:
+            i, meta = enc_parts(m.group(1))
+            return names.index("List"), [i] + meta
+        m = re.match(r"^([A-Za-z0-9]+)(?:\((.*)\))?$", tn)
         if not m or m.group(1) not in names:
-            return None
+            raise ValueError("type name " + tn)
         meta = []
         if m.group(2) is not None:
             for y in m.group(2).split(","):
-                meta.append(str(int(y)) if re.match(r"^-?\d+$", y) else str(sum(ord(ch) for ch in y)))
-        return "/".join([str(names.index(m.group(1)))] + meta)
+                meta.append(int(y) if re.match(r"^-?\d+$", y) else sum(ord(ch) for ch in y))
+        return names.index(m.group(1)), meta
 
+    def enc(tn):
+        i, meta = enc_parts(tn)
+        return "/".join([str(i)] + [str(x) for x in meta])
+
+    def dec_name(p_, s_):
+        return "Decimal%d(%d,%d)" % (64 if p_ <= 18 else 128, p_, s_)
+
+    # branch items: (SQL expression, announced type).  Columns, and PARAMETRISED types of one id with different
+    # parameters: decimals of different (p,s) within and across Decimal64/128, lists of different element types
+    # (timestamps exist in one unit only in this tree: there is no cast to another unit)
     colty = {c: t for c, _, t in COLS}
     cols = [c for c, _, _ in COLS]
+    DECS = [(10, 2), (12, 4), (18, 9), (18, 0), (5, 0), (4, 3), (10, 4), (20, 2), (30, 5), (38, 10), (38, 0), (19, 2)]
+    items = {c: colty[c] for c in cols}
+    dec_items = []
+    for p_, s_ in DECS:
+        e = "cast(ci32 as decimal(%d,%d))" % (p_, s_)
+        items[e] = dec_name(p_, s_)
+        dec_items.append(e)
+    list_items = []
+    for e, t in (("[ci8]", "List[Int8]"), ("[ci32]", "List[Int32]"), ("[ci64]", "List[Int64]"), ("[ct]", "List[Utf8]"), ("[cd1]", "List[Decimal64(10,2)]"),
+                 ("[cd2]", "List[Decimal64(18,9)]"), ("[[ci32]]", "List[List[Int32]]"), ("[cts]", "List[Timestamp(μs)]")):
+        items[e] = t
+        list_items.append(e)
     upairs = [([a], [b]) for a in cols for b in cols]
+    ncolpairs = len(upairs)
+    param_pairs = [([a], [b]) for a in dec_items for b in dec_items] + [([a], [b]) for a in list_items for b in list_items] + \
+                  [([a], [b]) for a in dec_items[:4] + list_items[:3] for b in ("ci32", "cd1", "cd3", "cf64", "ct", "cts")] + \
+                  [([b], [a]) for a in dec_items[:4] + list_items[:3] for b in ("ci32", "cd1", "cd3", "cf64", "ct", "cts")] + \
+                  [(["ci32", dec_items[0]], ["ci64", dec_items[1]]), ([dec_items[1], "ct"], [dec_items[0], "ct"]), ([dec_items[8], dec_items[0]], [dec_items[0], dec_items[8]])]
+    upairs += param_pairs
+    nparam = len(param_pairs)
     # several columns, and branches of different column counts (the binder must refuse those: C18_union_arity_checked)
     upairs += [(["ci32"], ["ci32", "ci64"]), (["ci32", "ci64"], ["ci32"]), (["ci32", "ct"], ["ci32", "ct", "cb"]), (["ci8", "ci8", "ci8"], ["ci8", "ci8"])]
+    allitems = list(items)
     for _ in range(120 if quick else 2000):
         la = 1 + rng.below(3)
         lb = la if rng.chance(55) else 1 + rng.below(3)
-        upairs.append(([rng.choice(cols) for _ in range(la)], [rng.choice(cols) for _ in range(lb)]))
-    ulines = ["%s | %s" % (" ".join(enc(colty[a]) for a in l), " ".join(enc(colty[b]) for b in r)) for l, r in upairs]
+        upairs.append(([rng.choice(allitems) for _ in range(la)], [rng.choice(allitems) for _ in range(lb)]))
+    ulines = ["%s | %s" % (" ".join(enc(items[a]) for a in l), " ".join(enc(items[b]) for b in r)) for l, r in upairs]
     uout = common.run_model(gmodel, "union", ulines)
     kws = ["union all", "union", "union all", "except", "intersect"]
-    usql = ["select %s from t %s select %s from t" % (", ".join(l), kws[i % len(kws)] if i >= len(cols) ** 2 else "union all", ", ".join(r)) for i, (l, r) in enumerate(upairs)]
+    usql = ["select %s from t %s select %s from t" % (", ".join(l), kws[i % len(kws)] if i >= ncolpairs + nparam else "union all", ", ".join(r)) for i, (l, r) in enumerate(upairs)]
     res1 = run_stmts(gverif, setup, [], ["describe " + x for x in usql], chunk=600)
     nun, nun_arity = 0, 0
-    for (l, r0), x, mo, r in zip(upairs, usql, uout, res1):
+    to_run = []      # accepted by model and binder: must also RUN and produce the announced types
+    for i, ((l, r0), x, mo, r) in enumerate(zip(upairs, usql, uout, res1)):
         nun += 1
         ds = desc_schema(r)
         if len(l) != len(r0):
@@ -525,11 +560,35 @@ def stage_sql(ctx, rng, d, gverif, gmodel):
                              else "set operation binds although the modelled rule finds no common type", "sql": x, "stmts": setup + ["describe " + x, x], "describe": ds})
             continue
         outs = mo.split()
-        want = [colty[a] if o.split(":")[1] in ("n", "r") else colty[b] for a, b, o in zip(l, r0, outs)]
+        want = [items[a] if o.split(":")[1] in ("n", "r") else items[b] for a, b, o in zip(l, r0, outs)]
         if ds is None:
             viol.append({"kind": "set operation fails to bind although the modelled rule unifies", "sql": x, "model": mo, "result": str(r)[:300]})
         elif [c[1] for c in ds] != want:
             viol.append({"kind": "set operation output type differs from the modelled rule (bind_setop.rs)", "sql": x, "describe": ds, "model_type": want})
+        elif " union all " in x and (ncolpairs <= i < ncolpairs + nparam or rng.chance(25)):
+            to_run.append((x, want, mo))
+    # run them: the branch the model says needs a cast must have been cast to the ONE announced full type
+    value_level = re.compile(r"Failed to parse|Failed cast|Failed to cast|overflow|out of range|too large|Cannot create decimal|Not yet implemented")
+    nrun = 0
+    for parts in (1, 4):
+        rr = run_stmts(gverif, setup, ["set partitions to %d" % parts], [x for x, _, _ in to_run], chunk=150, threads=parts)
+        for (x, want, mo), r in zip(to_run, rr):
+            nrun += 1
+            if r.get("ok"):
+                got = [c[1] for c in r["schema"]]
+                bad = [bt for bt in r.get("batch_types", []) if bt != want]
+                if got != want or bad or ("value_err" in r and not re.match(r"^value type List\[Null\]", r["value_err"])):
+                    viol.append({"kind": "a set operation produces types different from the ONE announced type per column", "sql": x, "stmts": setup + ["set partitions to %d" % parts, x],
+                                 "announced": want, "schema": got, "batch_types": r.get("batch_types"), "value_err": r.get("value_err")})
+            else:
+                msg = r.get("err") or r.get("panic") or str(r.get("abort"))
+                if value_level.search(msg or ""):
+                    note_not_produced(x, r)
+                else:
+                    viol.append({"kind": "a set operation accepted by the binder fails at run time (a branch was not cast to the announced type)", "sql": x,
+                                 "stmts": setup + ["set partitions to %d" % parts, "describe " + x, x], "announced": want, "model": mo, "error": msg})
+    info["setop_statements_run"] = nrun
+    info["setop_parametrised_pairs"] = nparam
     info["setop_unequal_column_counts_checked"] = nun_arity
     info["setop_types_checked"] = nun
     info["checked"] = checked
